@@ -37,6 +37,18 @@ Notation check_address := (lib_check_address H H160 b58e pubser).
 Lemma first4_len x : length (firstn 4 (H x)) = 4%nat.
 Proof. apply firstn_len_le. rewrite H_len. lia. Qed.
 
+(* the checksum / length test of bip38_decrypt passes on payload ++ checksum *)
+Lemma checksum_passes (d payload cs : bytes) :
+  d = payload ++ cs -> length payload = 39%nat -> cs = firstn 4 (H payload) ->
+  negb (Nat.eqb (length d) 43) || negb (bytes_eqb (last_n 4 d) (firstn 4 (H (firstn (length d - 4) d)))) = false.
+Proof.
+  intros -> Lp Ec.
+  assert (Lc : length cs = 4%nat) by (rewrite Ec; apply first4_len).
+  rewrite app_length, Lp, Lc. change (39 + 4 - 4)%nat with 39%nat. cbn [Nat.eqb plus negb orb].
+  unfold last_n. rewrite app_length, Lp, Lc. change (39 + 4 - 4)%nat with 39%nat.
+  rewrite (skipn_exact _ _ 39 Lp), (firstn_exact _ _ 39 Lp), <- Ec, bytes_eqb_refl. reflexivity.
+Qed.
+
 (* ---------------------------------------------------------------- layout of a plain-mode payload *)
 Lemma noec_slices flag ah eh1 eh2 cs :
   length ah = 4%nat -> length eh1 = 16%nat -> length eh2 = 16%nat -> length cs = 4%nat ->
@@ -145,7 +157,17 @@ Proof.
   destruct (flag_facts c) as (F1 & F2). fold flag in F1, F2.
   unfold lib_key_decrypt.
   rewrite (b58_prot _ Ld S0). cbn [negb].
-  unfold lib_bip38_decrypt. rewrite (b58_rt _ Ld). rewrite S0.
+  unfold lib_bip38_decrypt. rewrite (b58_rt _ Ld).
+  assert (Ck : negb (Nat.eqb (length (pfx_noec ++ [flag] ++ ah ++ eh1 ++ eh2 ++ cs)) 43) ||
+               negb (bytes_eqb (last_n 4 (pfx_noec ++ [flag] ++ ah ++ eh1 ++ eh2 ++ cs))
+                       (firstn 4 (H (firstn (length (pfx_noec ++ [flag] ++ ah ++ eh1 ++ eh2 ++ cs) - 4)
+                                            (pfx_noec ++ [flag] ++ ah ++ eh1 ++ eh2 ++ cs))))) = false).
+  { apply (checksum_passes _ (pfx_noec ++ [flag] ++ ah ++ eh1 ++ eh2) cs).
+    - rewrite <- !app_assoc. reflexivity.
+    - unfold pfx_noec. cbn [app length]. rewrite !app_length. lia.
+    - reflexivity. }
+  rewrite Ck.
+  rewrite S0.
   change (bytes_eqb pfx_noec pfx_ec) with false. change (bytes_eqb pfx_noec pfx_noec) with true. cbv iota.
   rewrite (noec_decrypt_payload flag ah eh1 eh2 cs pw Hah H1 H2 Hcs F1).
   fold key. fold dh1. fold dh2. unfold eh1, eh2.
@@ -194,6 +216,7 @@ Proof.
   apply negb_false_iff, bytes_eqb_true in Eb.
   unfold lib_bip38_decrypt in Ei.
   destruct (b58d e) as [d|]; [|discriminate].
+  destruct (negb (Nat.eqb (length d) 43) || _); [discriminate|].
   exists d, a. split; [reflexivity|]. split; [exact Ea|]. rewrite Eb.
   destruct (bytes_eqb (sl 0 2 d) pfx_ec); [eapply ec_hash; exact Ei|].
   destruct (bytes_eqb (sl 0 2 d) pfx_noec); [eapply noec_hash; exact Ei | discriminate].
